@@ -277,11 +277,14 @@ def build_pre(sc, d, wl):
     from xyzpy.gen.cropping import grow
 
     core.fresh_dir(os.path.basename(d))
+    # (the farmer that harvested the earlier data also sows the crop: it is
+    # pickled into the crop together with what it holds in memory)
+    far = sc.farmer(d)
     if sc.earlier:
-        sc.seed_earlier(d)
+        sc.seed_earlier(d, far)
     if wl == "sow":
         return
-    crop = sc.new_crop(d)
+    crop = sc.new_crop(d, far=far)
     sc.sow(crop)
     grown = {"resow": [1], "grow1": [], "growmulti": [1], "growmissing": [2],
              "reap": list(range(1, crop.num_batches + 1))}[wl]
